@@ -40,9 +40,18 @@ def deliver(x, a, ln, mem):
         v = y[0::2]
         v.flags.writeable = False
         return v
+    if mem == "scratch":
+        # the source recycles its buffer: a writable copy that is overwritten right after the call returns
+        return x[a : a + ln].copy()
     v = x[a : a + ln]
     v.flags.writeable = False
     return v
+
+
+def recycle(chunk, mem):
+    """What a recycling source does with its buffer once compute_chunk has returned."""
+    if mem == "scratch" and chunk.size:
+        chunk[...] = np.nan if chunk.dtype.kind == "f" else 0
 
 
 def gen_lengths(rng, L, S, block, style_first):
@@ -126,4 +135,6 @@ def gen_deliveries(rng, n, L, S, block, max_deliveries=64):
         out = [0] * rng.randrange(0, 3)
     pm = rng.choice((0.0, 0.5, 1.0))
     ps = rng.choice((0.0, 0.0, 0.3))
-    return [[int(k), "strided" if rng.random() < ps else ("copy" if rng.random() < pm else "ro")] for k in out]
+    pr = rng.choice((0.0, 0.0, 0.0, 0.5, 1.0))
+    return [[int(k), "strided" if rng.random() < ps else ("scratch" if rng.random() < pr else
+                                                           ("copy" if rng.random() < pm else "ro"))] for k in out]
